@@ -45,7 +45,7 @@ IV = "src/pyhf/infer/intervals/__init__.py"
 # R2 / R3 know where `level`, the tolerances and the reversed grid are WRITTEN in the two scan functions; R6 (the automatic scan
 # walked into a recording root finder, two scenarios) and R5 / R4 (the grid scan on symbolic curves) decide the same clauses from
 # what the functions compute, whatever helper, argument order or options dictionary carries the values.
-DEFER = [(["C09.R2"], ["C09.R6"]), (["C09.R3"], ["C09.R5", "C09.R4"])]
+DEFER = [(["C09.R2"], ["C09.R6"]), (["C09.R3"], ["C09.R5", "C09.R4"]), (["C09.R1"], ["C09.R4", "C09.R5", "C09.R6"], "intervals/upper_limits.py")]  # the deprecated alias in intervals/__init__.py keeps its structural verdict
 
 
 def run(ctx):
@@ -504,6 +504,43 @@ def _interpreted(ctx, r5, r6, repo):
                 ctx.holds(r5, site, "4 hypotests with the caller's inputs; 6 inversions over all 4 points; layout")
         except errs as e:
             ctx.unrecognised(r5, lin, f"linear_grid_scan [return_results={rr}]", f"not interpretable: {type(e).__name__}: {e}")
+    # ---------------------------------------------------------------- the grid arm THROUGH upper_limit (what a user calls)
+    for rr in (True, False):
+        rec = {"hypotest": [], "interp": [], "toms748": []}
+        region = AutoRegion()
+        for i in range(4):
+            region[f"x{i}"] = F_(i)
+        region["LEVEL"] = F_(1, 5)  # not the default level
+
+        def cls_of2(poi, region=region):
+            i = int(poi.evalf(region))
+            return [obs_curve[i]] + band[i]
+
+        try:
+            w = mk_world(region, rec, cls_of2)
+            DATA, MODEL = Obj("DATA"), Obj("MODEL")
+            scan = listnp.T([at(f"x{i}") for i in range(4)])
+            out = w.call_func(ul, [DATA, MODEL], {"scan": scan, "level": at("LEVEL"), "return_results": rr, "test_stat": "q", "par_bounds": Obj("PB")})
+            probs = []
+            if [h["poi"] for h in rec["hypotest"]] != [f"x{i}" for i in range(4)]:
+                probs.append(f"hypotest evaluated at {[h['poi'] for h in rec['hypotest']]}, the grid is x0..x3")
+            for h in rec["hypotest"]:
+                if h["data"] is not DATA or h["model"] is not MODEL or h["kw"].get("test_stat") != "q" or getattr(h["kw"].get("par_bounds"), "name", None) != "PB":
+                    probs.append(f"the hypothesis test at {h['poi']} does not receive the caller's data, model and options (got options {sorted(h['kw'])})")
+                    break
+            if any(x != ["LEVEL"] for x, _, _ in rec["interp"]) or len(rec["interp"]) != 6:
+                probs.append(f"the curves are inverted at {sorted({str(x) for x, _, _ in rec['interp']})}, the caller asked for LEVEL ({len(rec['interp'])} inversions, 6 curves)")
+            n_out = len(out) if isinstance(out, (tuple, list)) else 0
+            if n_out != (3 if rr else 2):
+                probs.append(f"{n_out} results returned, {'(observed, expected, (points, results))' if rr else '(observed, expected)'} asked for")
+            elif rr and not (isinstance(out[2], (tuple, list)) and len(out[2]) == 2 and [str(to_poly(x)) for x in out[2][0]] == [f"x{i}" for i in range(4)] and len(out[2][1]) == 4):
+                probs.append("the third element is not (the grid, the per-point results)")
+            if probs:
+                ctx.violated(r5, ul, f"upper_limit with a grid [return_results={rr}]", "upper_limit with a scan grid does not solve CLs = level for the caller's level, hypothesis test and data: " + probs[0], found=f"{len(probs)} deviation(s)")
+            else:
+                ctx.holds(r5, f"{UL}::upper_limit [grid, level 0.2, return_results={rr}]", "caller's data, model, options and level reach the grid scan; layout as asked")
+        except errs as e:
+            ctx.unrecognised(r5, ul, f"upper_limit with a grid [return_results={rr}]", f"not interpretable: {type(e).__name__}: {e}")
     # ---------------------------------------------------------------- automatic
     rec = {"hypotest": [], "interp": [], "toms748": []}
     region = AutoRegion()
